@@ -28,6 +28,10 @@ enum Op {
     Usage,
     Version,
     CloneIt,
+    /// render the help of the first subcommand through `find_subcommand_mut` (before or after the
+    /// parent was ever built)
+    SubHelp,
+    SubUsage,
 }
 
 fn probes(spec: &CmdSpec) -> Vec<Vec<Vec<u8>>> {
@@ -51,6 +55,8 @@ fn probes(spec: &CmdSpec) -> Vec<Vec<Vec<u8>>> {
             vec!["-V"],
             vec!["su"],
             vec!["v", "w"],
+            vec!["sub", "-a"],
+            vec!["sub", "--opt", "v"],
         ]
     };
     v.into_iter().map(|l| l.into_iter().map(|s| s.as_bytes().to_vec()).collect()).collect()
@@ -100,6 +106,16 @@ fn apply(cmd: &Command, spec: &CmdSpec, op: &Op, pr: &[Vec<Vec<u8>>]) -> Command
         Op::CloneIt => {
             c = c.clone();
         }
+        Op::SubHelp => {
+            if let Some(sc) = c.get_subcommands_mut().next() {
+                let _ = catch(|| sc.render_help().to_string());
+            }
+        }
+        Op::SubUsage => {
+            if let Some(sc) = c.get_subcommands_mut().next() {
+                let _ = catch(|| sc.render_usage().to_string());
+            }
+        }
     }
     c
 }
@@ -125,13 +141,26 @@ fn search(spec: &CmdSpec, with_build: bool, depth: u32, cap: usize) -> SearchOut
     if with_build {
         ops.push(Op::Build);
     }
-    ops.extend([Op::Help, Op::LongHelp, Op::Usage, Op::Version, Op::CloneIt]);
+    ops.extend([Op::Help, Op::LongHelp, Op::Usage, Op::Version, Op::CloneIt, Op::SubHelp, Op::SubUsage]);
     let viol: std::cell::RefCell<Vec<(String, String, usize, usize)>> = Default::default();
     let b = Bfs::run(
-        vec![fresh.clone()],
-        |c: &Command| canon(c),
-        |c, _d| ops.iter().map(|op| (op.clone(), apply(c, spec, op, &pr))).collect(),
-        |c, idx, _d| {
+        vec![(fresh.clone(), false)],
+        |s: &(Command, bool)| format!("{}{}", if s.1 { "B" } else { "-" }, canon(&s.0)),
+        |s, _d| {
+            let (c, built) = s;
+            ops.iter()
+                // `Command::build` documents that the top-level command has to be prepared before
+                // its children are introspected: rendering a child of a never-built parent is not
+                // part of the history space
+                .filter(|op| *built || !matches!(op, Op::SubHelp | Op::SubUsage))
+                .map(|op| {
+                    let prepared = *built || !matches!(op, Op::CloneIt | Op::Version | Op::SubHelp | Op::SubUsage);
+                    (op.clone(), (apply(c, spec, op, &pr), prepared))
+                })
+                .collect()
+        },
+        |s, idx, _d| {
+            let c = &s.0;
             for (pi, a) in pr.iter().enumerate() {
                 let got = run_parse(&mut c.clone(), spec, a);
                 let want = &reference[pi];
@@ -259,20 +288,89 @@ fn configs(tier: Tier) -> Vec<(Vec<&'static str>, CmdSpec)> {
                 used.push(d.name);
             }
         }
+        // command-level settings that the shared catalogue leaves to the help checks
+        for (n, st) in LOCAL {
+            if names.contains(&n) {
+                c.set(st);
+                used.push(n);
+            }
+        }
         (used, c)
     };
     for p in &picks {
         out.push(mk(p));
     }
-    if tier == Tier::Thorough {
-        for d in cat.iter() {
-            if !picks.iter().any(|p| p.len() == 1 && p[0] == d.name) {
-                out.push(mk(&[d.name]));
+    // a setting switched on and off again before first use must leave no trace that shows up only
+    // after the definition has been built once
+    const TOGGLES: [(&str, Setting); 21] = [
+        ("toggle:no_binary_name", Setting::NoBinaryName),
+        ("toggle:multicall", Setting::Multicall),
+        ("toggle:propagate_version", Setting::PropagateVersion),
+        ("toggle:ignore_errors", Setting::IgnoreErrors),
+        ("toggle:disable_help_flag", Setting::DisableHelpFlag),
+        ("toggle:disable_help_subcommand", Setting::DisableHelpSubcommand),
+        ("toggle:disable_version_flag", Setting::DisableVersionFlag),
+        ("toggle:infer_long_args", Setting::InferLongArgs),
+        ("toggle:infer_subcommands", Setting::InferSubcommands),
+        ("toggle:args_override_self", Setting::ArgsOverrideSelf),
+        ("toggle:args_conflicts_with_subcommands", Setting::ArgsConflictsWithSubcommands),
+        ("toggle:subcommand_precedence_over_arg", Setting::SubcommandPrecedenceOverArg),
+        ("toggle:subcommand_negates_reqs", Setting::SubcommandNegatesReqs),
+        ("toggle:subcommand_required", Setting::SubcommandRequired),
+        ("toggle:arg_required_else_help", Setting::ArgRequiredElseHelp),
+        ("toggle:dont_delimit_trailing_values", Setting::DontDelimitTrailingValues),
+        ("toggle:allow_missing_positional", Setting::AllowMissingPositional),
+        ("toggle:next_line_help", Setting::NextLineHelp),
+        ("toggle:flatten_help", Setting::FlattenHelp),
+        ("toggle:hide_possible_values", Setting::HidePossibleValues),
+        ("toggle:dont_collapse_args_in_usage", Setting::DontCollapseArgsInUsage),
+    ];
+    for (i, (n, st)) in TOGGLES.iter().enumerate() {
+        // quick: the settings that are global (propagated) or read before the build; thorough: all
+        if tier == Tier::Quick && i >= 8 {
+            break;
+        }
+        let (mut used, mut c) = mk(&["sub_nested"]);
+        c.toggled.push(*st);
+        used.push(*n);
+        out.push((used, c));
+    }
+    for n in cat.iter().map(|d| d.name).chain(LOCAL.iter().map(|l| l.0)) {
+        if !picks.iter().any(|p| p.len() == 1 && p[0] == n) {
+            out.push(mk(&[n]));
+        }
+    }
+    // every pair of deviations (thorough: every triple that contains a command-level setting)
+    let names: Vec<&'static str> = cat.iter().map(|d| d.name).chain(LOCAL.iter().map(|l| l.0)).collect();
+    for i in 0..names.len() {
+        for j in i + 1..names.len() {
+            if !picks.iter().any(|p| p.len() == 2 && p.contains(&names[i]) && p.contains(&names[j])) {
+                out.push(mk(&[names[i], names[j]]));
+            }
+            if tier == Tier::Thorough {
+                for k in j + 1..names.len() {
+                    let (_, c) = mk(&[names[i]]);
+                    let (_, c2) = mk(&[names[j]]);
+                    let (_, c3) = mk(&[names[k]]);
+                    if c.settings.is_empty() && c2.settings.is_empty() && c3.settings.is_empty() {
+                        continue;
+                    }
+                    out.push(mk(&[names[i], names[j], names[k]]));
+                }
             }
         }
     }
     out
 }
+
+const LOCAL: [(&str, Setting); 6] = [
+    ("flatten_help", Setting::FlattenHelp),
+    ("next_line_help", Setting::NextLineHelp),
+    ("hide_possible_values", Setting::HidePossibleValues),
+    ("dont_collapse_args_in_usage", Setting::DontCollapseArgsInUsage),
+    ("propagate_version", Setting::PropagateVersion),
+    ("ignore_errors", Setting::IgnoreErrors),
+];
 
 fn recheck(case: &Value) -> Vec<Violation> {
     let Ok(spec) = CmdSpec::from_json(&case["spec"]) else { return vec![] };
